@@ -20,7 +20,8 @@ RULE = ("(a) BFS over mixed histories (mutators - also storing a synced collecti
         "verb) cases")
 BOUNDS = {"quick": "(a) 18 classes depth 3; (b) 3 classes x 3 depths x full key pool",
           "thorough": "(a) depth 4; (b) same + buffered contexts around the programs"}
-ASSUMPTIONS = ["family table by public class name", "server backends against fake stores"]
+ASSUMPTIONS = ["(a) runs in processes in which every other JSON class family has already done ordinary work (warm-up), the remaining "
+               "checks run in pristine processes", "family table by public class name", "server backends against fake stores"]
 
 INIT = {"dict": {"a": {"b": [0, {"c": 0}]}, "k": 0, "l": [[1], {"d": 2}]},
         "list": [0, [1, {"a": 0}], {"b": [0, {"c": [1]}]}]}
@@ -363,7 +364,10 @@ def plan(tier, seed):
         depth = 3 if tier == "quick" else 4
         if tier == "quick" and (env.family_of(c) in env.SERVER_FAMILIES or env.family_of(c) in env.ATTR_FAMILIES):
             depth = 2
-        cfg = seq.Config(c, initial=(INIT[k],), label=c)
+        # every execution process first lets the OTHER class families do ordinary work (see env.warm_siblings): the
+        # family of a nested container must not depend on which classes were used before in the process
+        cfg = seq.Config(c, initial=(INIT[k],), label=c,
+                         options={"warm_siblings": True} if env.family_of(c) in env.JSON_FAMILIES else None)
         kw = dict(label="a/%s/d%d" % (c, depth), cfg=cfg, alphabet="alphabet", depth=depth, oracles={"result"}, hooks="probe")
         if depth >= 4:
             kw["max_transitions"] = 40000
